@@ -9,6 +9,7 @@ mod model;
 mod props;
 mod report;
 mod rng;
+mod segdump;
 
 use report::Report;
 use std::time::Instant;
